@@ -5,7 +5,8 @@ import ast
 import io
 import tokenize
 
-COMMENTS = ["# note", "# main loop", "#", "# if x: y = 1", "# while True:", "#    indented text", "# else:", "# \"quote\" 'q'", "# def f():"]
+COMMENTS = ["# note", "# main loop", "#", "# if x: y = 1", "# while True:", "#    indented text", "# else:", "# \"quote\" 'q'", "# def f():",
+            "# open (bracket", "# list [a, b", "# {brace", "# )]}", "# it's", "# back\\", "# mon.write(", "# f\"{x\""]
 
 
 def same_python(a: str, b: str) -> bool:
